@@ -15,7 +15,7 @@ LEVEL = "exploration"
 
 
 def make_world(seed, collide):
-    w = world.standard_world(seed, n_chroms=3, genes_per_chrom=4, hidden=True, mono_genes=True, chrom_len=125000)
+    w = world.standard_world(seed, n_chroms=3, genes_per_chrom=4, hidden=True, mono_genes=True, chrom_len=230000)
     # make sure there are hidden isoforms on every chromosome
     # unannotated loci (novel genes): genes whose isoforms are all hidden from the annotation
     rng0 = w.rng
